@@ -26,3 +26,74 @@ def nodeSeq (part total nodes : Nat) : List Nat :=
   (List.range total).flatMap fun shift => innerLoop total nodes nodes ((part + shift) % total)
 
 end NeoFS.EC
+
+/-!
+## Erasure coding of a payload (`internal/ec/ec.go`)
+
+Reed–Solomon arithmetic (klauspost/reedsolomon) is a *parameter*: a `Coder` with the laws the code relies
+on (`Coder.Lawful`).  Bytes are `Nat`s, a missing part is `none` (Go: `nil`/empty slice).
+-/
+namespace NeoFS.EC
+
+abbrev Shard := List Nat
+
+/-- bytes per part: ⌈n/d⌉ -/
+def perShard (n d : Nat) : Nat := (n + d - 1) / d
+
+/-- `k` consecutive chunks of `sz` bytes -/
+def chunks (sz : Nat) : Nat → List Nat → List Shard
+  | 0, _ => []
+  | k + 1, l => l.take sz :: chunks sz k (l.drop sz)
+
+/-- the data parts `reedsolomon.Split` produces: the payload padded with zeros, cut into `d` parts -/
+def dataParts (payload : List Nat) (d : Nat) : List Shard :=
+  let sz := perShard payload.length d
+  chunks sz d (payload ++ List.replicate (d * sz - payload.length) 0)
+
+structure Coder where
+  /-- parity shards of `d` equal-length data shards (`Encode`) -/
+  parity : (d p : Nat) → List Shard → List Shard
+  /-- `ReconstructSome(parts, required)`: `none` is an error -/
+  reconSome : (d p : Nat) → List (Option Shard) → List Bool → Option (List (Option Shard))
+
+/-- all `d+p` parts of a payload -/
+def Coder.allParts (c : Coder) (d p : Nat) (payload : List Nat) : List Shard :=
+  dataParts payload d ++ c.parity d p (dataParts payload d)
+
+/-- keep the parts selected by `present` -/
+def mask (parts : List Shard) (present : List Bool) : List (Option Shard) :=
+  List.zipWith (fun s b => if b then some s else none) parts present
+
+/-- What the code needs from the Reed–Solomon library for a rule `d/p`. -/
+structure Coder.Lawful (c : Coder) (d p : Nat) : Prop where
+  parity_count : ∀ data : List Shard, data.length = d → (c.parity d p data).length = p
+  parity_len : ∀ (data : List Shard) (sz : Nat), (∀ s ∈ data, s.length = sz) → ∀ s ∈ c.parity d p data, s.length = sz
+  /-- any `≥ d` parts of a non-empty encoding determine every requested part, nothing else is touched
+  and nothing wrong is produced -/
+  recon : ∀ (payload : List Nat) (present required : List Bool), payload ≠ [] →
+    present.length = d + p → required.length = d + p → d ≤ present.count true →
+    ∃ r, c.reconSome d p (mask (c.allParts d p payload) present) required = some r ∧ r.length = d + p ∧
+      (∀ i (h : i < d + p), (present.getD i false = true ∨ required.getD i false = true) →
+        r[i]? = some ((c.allParts d p payload)[i]?)) ∧
+      (∀ (i : Nat) (s : Shard), r[i]? = some (some s) → (c.allParts d p payload)[i]? = some s)
+
+/-- `iec.Encode`: for an empty payload all parts are empty -/
+def encode (c : Coder) (d p : Nat) (payload : List Nat) : List Shard :=
+  if payload = [] then List.replicate (d + p) [] else c.allParts d p payload
+
+/-- `iec.ConcatDataParts` -/
+def concatDataParts (d dataLen : Nat) (parts : List Shard) : List Nat := ((parts.take d).flatten).take dataLen
+
+/-- `iec.Decode`: `none` is an error -/
+def decode (c : Coder) (d p dataLen : Nat) (parts : List (Option Shard)) : Option (List Nat) :=
+  match c.reconSome d p parts (List.replicate d true ++ List.replicate p false) with
+  | none => none
+  | some r =>
+    let dat := (r.take d).map (·.getD [])
+    if (dat.map List.length).sum < dataLen then none else some (dat.flatten.take dataLen)
+
+/-- `iec.DecodeRange` / `iec.DecodeIndexes`: reconstruct the requested parts in place -/
+def decodeSome (c : Coder) (d p : Nat) (parts : List (Option Shard)) (required : List Bool) : Option (List (Option Shard)) :=
+  c.reconSome d p parts required
+
+end NeoFS.EC
